@@ -322,3 +322,131 @@ Proof.
   - intros H. split; [exists fuel; exact H|apply (expand_depth _ _ _ _ _ H)].
   - intros [[f0 H] Hd]. apply (expand_depth_enough f0); assumption.
 Qed.
+
+Lemma expand_with_app rec pats wbs a b :
+  expand_with rec pats wbs (a ++ b) =
+  match expand_with rec pats wbs a, expand_with rec pats wbs b with
+  | Some ta, Some tb => Some (ta ++ tb)
+  | _, _ => None
+  end.
+Proof.
+  induction a as [|r a IH].
+  - cbn [app]. rewrite expand_with_nil. destruct (expand_with rec pats wbs b); reflexivity.
+  - cbn [app]. rewrite !expand_with_cons, IH. destruct (nestable pats wbs r) as [sub|].
+    + destruct (rec sub) as [t1|]; [|reflexivity].
+      destruct (expand_with rec pats wbs a) as [ta|]; [|reflexivity].
+      destruct (expand_with rec pats wbs b) as [tb|]; reflexivity.
+    + destruct (expand_with rec pats wbs a) as [ta|]; [|reflexivity].
+      destruct (expand_with rec pats wbs b) as [tb|]; reflexivity.
+Qed.
+
+(* an active content_index row whose sheet resolves to an index table is exactly the rows
+   of that table written in its place — state (or error) equal, provided the fuel covers
+   the nesting depth ([expand fuel ... = Some t], i.e. [depth t <= fuel] by [fuel_bound]) *)
+Theorem nested_in_place fuel pats wbs pre r sub post t st :
+  nestable pats wbs r = Some sub ->
+  expand fuel pats wbs (pre ++ r :: post) = Some t ->
+  process fuel pats wbs (pre ++ r :: post) st = process fuel pats wbs (pre ++ sub ++ post) st.
+Proof.
+  intros Hn He. rewrite expand_unfold, expand_with_app, expand_with_cons, Hn in He.
+  destruct (expand_with (erec_of fuel pats wbs) pats wbs pre) as [tpre|]; [|discriminate].
+  destruct (erec_of fuel pats wbs sub) as [t1|] eqn:E1; [|discriminate].
+  destruct fuel as [|f]; [discriminate|]. cbn [erec_of] in E1.
+  rewrite process_unfold, !process_with_app. cbn [rec_of].
+  destruct (process_with (process f pats wbs) pats wbs pre st) as [st1|e]; [|reflexivity].
+  rewrite process_with_cons, process_with_app. unfold step_row. rewrite (nestable_active _ _ _ _ Hn), Hn.
+  rewrite (process_expand _ _ _ _ _ st1 E1).
+  change (process_with (process f pats wbs) pats wbs sub st1) with (process (S f) pats wbs sub st1).
+  rewrite (process_expand _ _ _ _ _ st1 (expand_S _ _ _ _ _ E1)). reflexivity.
+Qed.
+
+(* ... and the histories are the same *)
+Theorem nested_in_place_history fuel pats wbs pre r sub post t :
+  nestable pats wbs r = Some sub ->
+  expand fuel pats wbs (pre ++ r :: post) = Some t ->
+  exists t', expand fuel pats wbs (pre ++ sub ++ post) = Some t' /\ flatten pats t' = flatten pats t.
+Proof.
+  intros Hn He. rewrite expand_unfold, expand_with_app, expand_with_cons, Hn in He.
+  destruct (expand_with (erec_of fuel pats wbs) pats wbs pre) as [tpre|] eqn:Epre; [|discriminate].
+  destruct (erec_of fuel pats wbs sub) as [t1|] eqn:E1; [|discriminate].
+  destruct (expand_with (erec_of fuel pats wbs) pats wbs post) as [tpost|] eqn:Epost; [|discriminate].
+  injection He as <-.
+  destruct fuel as [|f]; [discriminate|]. cbn [erec_of] in E1.
+  apply expand_S in E1. rewrite expand_unfold in E1.
+  exists (tpre ++ t1 ++ tpost). split.
+  - rewrite expand_unfold, !expand_with_app, Epre, E1, Epost. reflexivity.
+  - rewrite !flatten_app. cbn [flatten]. rewrite flatten_item_nest, (nestable_active _ _ _ _ Hn). reflexivity.
+Qed.
+
+(* a run that ends well never ran out of fuel: its rows unfold to a tree *)
+Lemma process_with_ok_expand rec_p rec_e pats wbs :
+  (forall sub st st', rec_p sub st = Ok st' -> exists t, rec_e sub = Some t) ->
+  forall rows st st', process_with rec_p pats wbs rows st = Ok st' ->
+                      exists t, expand_with rec_e pats wbs rows = Some t.
+Proof.
+  intros Hrec. induction rows as [|r rest IH]; intros st st' Hp.
+  - exists []. reflexivity.
+  - rewrite process_with_cons in Hp. rewrite expand_with_cons. unfold step_row in Hp.
+    destruct (nestable pats wbs r) as [sub|] eqn:En.
+    + rewrite (nestable_active _ _ _ _ En) in Hp.
+      destruct (rec_p sub st) as [st1|e] eqn:E1; [|discriminate].
+      destruct (Hrec _ _ _ E1) as [t1 ->]. destruct (IH _ _ Hp) as [ts ->]. eexists. reflexivity.
+    + assert (Hrest : exists st1, process_with rec_p pats wbs rest st1 = Ok st').
+      { destruct (active pats r); [|exists st; exact Hp].
+        destruct (step_other wbs r st) as [st1|e]; [exists st1; exact Hp|discriminate]. }
+      destruct Hrest as [st1 H1]. destruct (IH _ _ H1) as [ts ->]. eexists. reflexivity.
+Qed.
+
+Lemma process_ok_expand fuel pats wbs rows st st' :
+  process fuel pats wbs rows st = Ok st' -> exists t, expand fuel pats wbs rows = Some t.
+Proof.
+  revert rows st st'. induction fuel as [|f IH]; intros rows st st' Hp;
+    rewrite process_unfold in Hp; rewrite expand_unfold.
+  - apply (process_with_ok_expand _ (erec_of 0 pats wbs)) in Hp; [exact Hp|]. intros sub s s' H. discriminate.
+  - apply (process_with_ok_expand _ (erec_of (S f) pats wbs)) in Hp; [exact Hp|]. intros sub s s' H. apply (IH _ _ _ H).
+Qed.
+
+(* the fold over an index table is the plain fold over its history *)
+Theorem process_history fuel pats wbs rows t st :
+  expand fuel pats wbs rows = Some t ->
+  process fuel pats wbs rows st = run_rows wbs (flatten pats t) st.
+Proof. intros He. rewrite (process_expand _ _ _ _ _ st He). apply run_tree_flatten. Qed.
+
+(* all root index sheets, in candidate (= reader = input) order, on one state *)
+Theorem process_indices_history fuel pats wbs idxs h st :
+  histories fuel pats wbs idxs = Some h ->
+  process_indices fuel pats wbs idxs st = run_rows wbs h st.
+Proof.
+  revert h st. induction idxs as [|[id b] rest IH]; intros h st Hh.
+  - injection Hh as <-. reflexivity.
+  - cbn [histories] in Hh. destruct b as [rows| | | |]; try discriminate.
+    destruct (expand fuel pats wbs rows) as [t|] eqn:Et; [|discriminate].
+    destruct (histories fuel pats wbs rest) as [h'|] eqn:Eh; [|discriminate].
+    injection Hh as <-. cbn [process_indices]. rewrite (process_history _ _ _ _ _ st Et), run_rows_app.
+    destruct (run_rows wbs (flatten pats t) st); [apply IH; reflexivity|reflexivity].
+Qed.
+
+Lemma process_indices_ok_history fuel pats wbs idxs st st' :
+  process_indices fuel pats wbs idxs st = Ok st' -> exists h, histories fuel pats wbs idxs = Some h.
+Proof.
+  revert st. induction idxs as [|[id b] rest IH]; intros st Hp.
+  - exists []. reflexivity.
+  - cbn [process_indices] in Hp. destruct b as [rows| | | |]; try discriminate.
+    destruct (process fuel pats wbs rows st) as [st1|e] eqn:E1; [|discriminate].
+    destruct (process_ok_expand _ _ _ _ _ _ E1) as [t Ht]. destruct (IH _ Hp) as [h' Hh'].
+    cbn [histories]. rewrite Ht, Hh'. eexists. reflexivity.
+Qed.
+
+Theorem load_history fuel pats wbs st :
+  load fuel pats wbs = Ok st ->
+  exists h st1, candidates wbs ci_root_sheet <> [] /\
+                history fuel pats wbs = Some h /\
+                run_rows wbs h st0 = Ok st1 /\
+                populate wbs (st_flows st1) st1 = Ok st.
+Proof.
+  unfold load, history. intros Hl. destruct (candidates wbs ci_root_sheet) as [|c cs] eqn:Ec; [discriminate|].
+  destruct (process_indices fuel pats wbs (c :: cs) st0) as [st1|e] eqn:Ep; [|discriminate].
+  destruct (process_indices_ok_history _ _ _ _ _ _ Ep) as [h Hh].
+  exists h, st1. split; [discriminate|]. split; [exact Hh|]. split; [|exact Hl].
+  rewrite <- (process_indices_history _ _ _ _ _ st0 Hh). exact Ep.
+Qed.
